@@ -226,7 +226,14 @@ class MibCompiler(object):
                 try:
                     fileInfo, fileData = source.getData(mibname)
 
-                    for mibTree in self._parser.parse(fileData):
+                    mibTrees = self._parser.parse(fileData)
+
+                    if not mibTrees:
+                        # nothing but white space or comments: keep looking
+                        raise error.PySmiReaderFileNotFoundError(
+                            'no MIB module found in %s' % fileInfo.path, reader=source)
+
+                    for mibTree in mibTrees:
                         mibInfo, symbolTable = self._symbolgen.genCode(
                             mibTree, symbolTableMap
                         )
